@@ -480,7 +480,8 @@ var failingCores = []string{
 }
 
 // texts with a syntax error in the middle and more forms behind it
-var failingParseCores = []string{"(+ 1 2)) (def leaked9 99)", "(def q9 1] (def leaked9 9)", "(list 1 2)) (defn leakf9 [] 1)", "(+ 1 2) } (def leaked9 1)", "(quote (a \\ b \\ c)) (def leaked9 2)", "[1 2)) (def leaked9 3)"}
+var failingParseCores = []string{"(def leaked9 1) \"abc", "(def leaked9 1) \"abc\\", "(def leaked9 1) 'a", "(def leaked9 1) '\\", "(def leaked9 1) (+ 1", "(def leaked9 1) /* c", "(def leaked9 1) `raw", "(def leaked9 1) [1 2", "(def leaked9 1) {a: 1",
+	"(+ 1 2)) (def leaked9 99)", "(def q9 1] (def leaked9 9)", "(list 1 2)) (defn leakf9 [] 1)", "(+ 1 2) } (def leaked9 1)", "(quote (a \\ b \\ c)) (def leaked9 2)", "[1 2)) (def leaked9 3)"}
 
 // forms that fail on a file that does not parse (the file is on the scenario's simulated disk)
 var failingFileCores = []string{"(include \"bad9.zy\")", "(source \"bad9.zy\")", "(source [\"bad9.zy\"])", "(include \"bad9.zy\" \"bad9.zy\")", "(req bad9)"}
@@ -554,6 +555,10 @@ func (g *progGen) nest(core string, n int) string {
 			s = fmt.Sprintf("(and true %s)", s)
 		case 8:
 			s = fmt.Sprintf("[1 %s]", s)
+		}
+		if g.r.Chance(0.12) {
+			// inside a template, not in last position
+			s = fmt.Sprintf(g.r.Pick([]string{"(len ^[1 ~%s 3])", "(len ^(a ~%s b))", "(len ^[~%s ~(+ 1 1)])", "(len ^(a ~@(list %s 1) b))", "(len (hash a: %s b: 2))", "(len [%s 2 3])"}), s)
 		}
 	}
 	return s
@@ -858,6 +863,10 @@ var declForms = []string{
 	"(for outer: [(def i 0) (< i 3) (def i (+ i 1))] (newScope (for inner: [(def j 0) (< j 3) (def j (+ j 1))] (cond (== j 1) (break outer:) 0))))",
 	"(def rh%d (hash a: 1 b: 2)) (for outer: [(def i 0) (< i 2) (def i (+ i 1))] (range k v rh%d (cond (== v 2) (continue outer:) 0)))",
 	"(def zc%d 1) (++ zc%d) (+= zc%d 2) zc%d",
+	// several values returned, the last of them a self-call; assignments whose target carries a sigil
+	"(func sm%d [n:int64 acc:int64] [a:int64 b:int64] (cond (== n 0) (return acc acc) (return 1 (sm%d (- n 1) (+ acc n))))) (sm%d 4 0)",
+	"(defn sn%d [n acc] (cond (== n 0) acc (return 1 2 (sn%d (- n 1) (+ acc n))))) (sn%d 3 0)",
+	"(defn lz%d [#a] (set #a 9) 1) (lz%d 3) (lz%d (+ 1 2))", "(def ?q%d 1) (set ?q%d 5) ?q%d", "(defn ly%d [#a b] (set #a b) (set b 2) b) (ly%d 1 2)", "(def #h%d 1) (set #h%d 2)",
 	// self-calls in tail position of typed functions (by name and by position), of functions with lazy and optional formals
 	"(func cn%d [n:int64] [r:int64] (cond (== n 0) 0 (cn%d n: (- n 1)))) (cn%d 3) (cn%d n:2)",
 	"(func co%d [n:int64 acc:int64] [r:int64] (cond (== n 0) acc (co%d acc: (+ acc 1) n: (- n 1)))) (co%d 3 0)",
